@@ -4,6 +4,7 @@ From Coq Require Import Strings.String Strings.Byte.
 From Coq Require Import List Arith NArith ZArith Bool.
 From PV Require Import Base.Bytes Base.Outcome Base.KV Aol.Spec Pnft.Model Pnft.Spec Pnft.Inv.
 From PV Require Import Chain.Model Chain.Run Chain.AolProps Chain.PnftProps Chain.Example.
+From PV Require Chain.AcceptIff.
 Import ListNotations.
 
 (** the invariant of the PNFT store holds along every history (any blocks, any transactions) *)
@@ -95,3 +96,18 @@ Example C06_nonvacuous :
   get_owner (c_pnft (run toy_oracles empty_chain pnft_history)) (b "d") (b "t1") = W /\
   denom_owner (c_pnft (run toy_oracles empty_chain pnft_history)) (b "d") = Some X.
 Proof. vm_compute. repeat split; reflexivity. Qed.
+
+(** completeness (Chain/AcceptIff.v): the current owner CAN transfer its token (to any decodable receiver), keeping the
+    token's metadata; and minting is accepted only from the denom owner *)
+Theorem C06_token_owner_can_transfer : forall unbech bech st denom_id id t receiver r,
+  Inv_pnft st -> get_nft st denom_id id = Some t -> unbech receiver = Some r ->
+  exists st', transfer_pnft unbech bech st denom_id id (bech (get_owner st denom_id id)) receiver = Ok st' /\
+    get_owner st' denom_id id = r /\ get_nft st' denom_id id = Some t.
+Proof. exact Chain.AcceptIff.token_owner_can_transfer. Qed.
+Print Assumptions C06_token_owner_can_transfer.
+
+Theorem C06_only_denom_owner_can_mint : forall unbech st now denom_id id name description uri uri_hash data creator d st',
+  get_class st denom_id = Some d ->
+  mint_pnft unbech st now denom_id id name description uri uri_hash data creator = Ok st' -> creator = dn_owner d.
+Proof. exact Chain.AcceptIff.only_denom_owner_can_mint. Qed.
+Print Assumptions C06_only_denom_owner_can_mint.
